@@ -192,7 +192,8 @@ class Session:
                         res.update(problem="no end after %d commands" % cap, result="LOOP")
                         outcome = None
                         break
-                    r = self.ask("cmd %d %s %d" % (obj.frame.as_integer, type(obj).__name__, obj.devicetype))
+                    r = self.ask("cmd %d %s %d %d" % (obj.frame.as_integer, type(obj).__name__, obj.devicetype,
+                                                      1 if obj.sendtwice else 0))
                     if r == "bad-op":
                         gen.close()
                         res.update(problem="unexpected command %s frame %#x" % (
@@ -301,7 +302,8 @@ class Session:
             later.append(collect(build(dict(sc, dest=other))[1]))      # kept alive until the end of this run
         for obj in objs:
             res["n"] += 1
-            r = self.ask("cmd %d %s %d" % (obj.frame.as_integer, type(obj).__name__, obj.devicetype))
+            r = self.ask("cmd %d %s %d %d" % (obj.frame.as_integer, type(obj).__name__, obj.devicetype,
+                                                      1 if obj.sendtwice else 0))
             if r == "bad-op":
                 res.update(problem="unexpected command %s frame %#x" % (type(obj).__name__, obj.frame.as_integer),
                            result="UNKNOWN-COMMAND", agree=False, post="FAIL")
